@@ -52,7 +52,13 @@ impl TimerState {
 
     pub(super) fn init(&mut self, cx: &mut Context<'_>) {
         if let TimerState::Active { timer } = self {
-            let _ = timer.as_mut().poll(cx);
+            // Deadlines are computed from the date service's cached clock, which can lag the
+            // runtime clock by up to 500ms, so a short timeout can already have elapsed when its
+            // timer is armed. A completed `Sleep` registers no waker: ask for another poll so that
+            // `poll_timers` sees it instead of waiting for some unrelated event.
+            if timer.as_mut().poll(cx).is_ready() {
+                cx.waker().wake_by_ref();
+            }
         }
     }
 }
